@@ -1,6 +1,6 @@
 From Coq Require Import Extraction ExtrOcamlBasic NArith ZArith List.
-From Storage Require Import Base.Bytes Store.Model Store.Events Store.TxHooks Store.TxShared.
+From Storage Require Import Base.Bytes Store.Model Store.Events Store.TxHooks Store.TxShared Store.EventsReg.
 Extraction Language OCaml.
 Definition force_types : nat * N * Z := (O, 0%N, 0%Z).
-Extraction "c08_model.ml" force_types st_empty run_tx run_tx_v db_update hook_tx registered_commits registered_pres flatten shared_update shared_tx shared_registered_commits live_pres dead_pres delivered_to mkListener find_store root_of is_child children_of
+Extraction "c08_model.ml" force_types st_empty run_tx run_tx_v db_update hook_tx registered_commits registered_pres flatten shared_update shared_tx shared_registered_commits live_pres dead_pres delivered_to cstep reg_pinned heap_empty nil_slice reg_types mkListener find_store root_of is_child children_of
   query_ids valid_ids find_ids.
